@@ -46,6 +46,7 @@ from .approx import (
     approximate_gamma_iqr,
 )
 from .hypergeo import _gammainc_inv as gammainc_inv
+from .util import constrain_ages
 from .util import mutation_span_array  # NOQA: F401
 
 
@@ -585,6 +586,8 @@ def rescale_tree_sequence(
             nodes_time, fixed_nodes, original_breaks, rescaled_breaks
         )
         assert np.allclose(nodes_time[fixed_nodes], ts.nodes_time[fixed_nodes])
+    # an interval without mutations maps distinct ages onto the same age
+    nodes_time = constrain_ages(ts, nodes_time, epsilon=1e-8)
     # calculate mutation ages
     mutations_parent = ts.edges_parent[mutations_edge]
     mutations_child = ts.edges_child[mutations_edge]
